@@ -290,6 +290,16 @@ def c10c(ctx):
     adds = g.find_stmts(lambda s: isinstance(s, ast.Assign) and isinstance(s.targets[0], ast.Subscript) and unparse(s.targets[0].value) in amap)
     ok = bool(adds) and len(amap) == 1 and all(g.guarded(a, lambda at: at.op == 'is' and 'True' in at.text and '.get(' in at.text, True) and
                             g.guarded(a, lambda at: at.op == '==' and "'partial'" in at.text, True) for a in adds)
+    if not adds and len(amap) == 1:
+        # the map built in one expression: {name: .. for name, permissions in .. if permissions.get(feature, False) is True}, under "partial"
+        comps = g.find_stmts(lambda s: isinstance(s, ast.Assign) and unparse(s.targets[0]) in amap and isinstance(s.value, ast.DictComp))
+        others = g.find_stmts(lambda s: isinstance(s, ast.Assign) and unparse(s.targets[0]) in amap and not isinstance(s.value, ast.DictComp) and
+                              not (isinstance(s.value, ast.Dict) and not s.value.keys))
+        ok = bool(comps) and not others and all(
+            g.guarded(n, lambda at: at.op == '==' and "'partial'" in at.text, True) and
+            any(at.op == 'is' and 'True' in at.text and '.get(' in at.text and p is True
+                for t in g.stmt[n].value.generators[0].ifs for at, p in implied(t, True)) and len(g.stmt[n].value.generators) == 1
+            for n in comps)
     ctx.check(ok, 'WMSServer.authorized_layers:only-permitted-listed', 'a layer enters the authorized map only for "partial" and feature is True', fn)
     un = g.find_stmts(lambda s: isinstance(s, ast.Raise) and '401' in unparse(s.exc))
     ok = bool(un) and all(g.guarded(u, lambda at: at.op == '==' and "'unauthenticated'" in at.text, True) for u in un)
@@ -300,7 +310,7 @@ def c10c(ctx):
         raise Undecided('filter_actual_layers: loop not found')
 
     def cls2(node):
-        if node is None:
+        if node is None or isinstance(node, ast.Continue):       # (the end of this layer's iteration, either way)
             return 'keep'
         if isinstance(node, ast.Raise):
             return 'raise403' if '403' in unparse(node.exc) else 'raise'
